@@ -251,7 +251,7 @@ def list_roles(directory):
     return roles
 
 
-def damage(directory, kind, role, fraction, bit=0):
+def damage(directory, kind, role, fraction, bit=0, names=()):
     """Applies one damage operation; returns a description or None if the
     addressed file does not exist."""
 
@@ -259,6 +259,10 @@ def damage(directory, kind, role, fraction, bit=0):
 
     if role == 'val[*]':
         candidates = sorted(r for r in roles if r.startswith('val['))
+
+        if not candidates and kind.startswith('bitflip-'):
+            # Small entries are stored in the database file itself.
+            candidates = [r for r in ('wal', 'db') if r in roles][:1]
 
         if not candidates:
             return None
@@ -296,6 +300,80 @@ def damage(directory, kind, role, fraction, bit=0):
             fout.write(b'\x00' * min(4096, size - page))
 
         return {'kind': kind, 'role': role, 'size': size, 'offset': page}
+
+    if kind == 'bitflip-name':
+        # One character of an identifier of the specification (a member,
+        # enumerator or type name as stored in the cache file) becomes
+        # another letter / digit.
+        with open(path, 'rb') as fin:
+            data = fin.read()
+
+        names = sorted(set(names))
+
+        if not names:
+            return None
+
+        start = int(fraction * 7919) % len(names)
+
+        for name in names[start:] + names[:start]:
+            needle = name.encode('ascii')
+            found = []
+            at = data.find(needle)
+
+            while at >= 0 and len(found) < 4096:
+                found.append(at)
+                at = data.find(needle, at + 1)
+
+            if not found:
+                continue
+
+            # (The occurrence nearest to `fraction` of the file.)
+            at = min(found, key=lambda f: abs(f - offset))
+            pos = at + 1 + (bit % max(1, len(needle) - 1))
+
+            if pos >= at + len(needle):
+                pos = at + len(needle) - 1
+
+            for candidate in (0, 1, 2):
+                flipped = data[pos] ^ (1 << candidate)
+
+                if 48 <= flipped <= 57 or 97 <= flipped <= 122:
+                    with open(path, 'r+b') as fout:
+                        fout.seek(pos)
+                        fout.write(bytes([flipped]))
+
+                    return {'kind': kind, 'role': role, 'size': size,
+                            'offset': pos, 'bit': candidate, 'name': name,
+                            'context': data[max(0, pos - 16):pos + 17].hex()}
+
+        return None
+
+    if kind == 'bitflip-text':
+        # A flip that keeps a letter a letter and a digit a digit, inside
+        # a run of identifier characters (pickled names and numbers): the
+        # damaged file is likely to still load - as something else.
+        with open(path, 'rb') as fin:
+            data = fin.read()
+
+        def alnum(b):
+            return 48 <= b <= 57 or 65 <= b <= 90 or 97 <= b <= 122
+
+        for pos in list(range(offset, size)) + list(range(0, offset)):
+            if not (alnum(data[pos]) and 0 < pos < size - 1
+                    and alnum(data[pos - 1]) and alnum(data[pos + 1])):
+                continue
+
+            for candidate in (bit % 3, (bit + 1) % 3, (bit + 2) % 3):
+                if alnum(data[pos] ^ (1 << candidate)):
+                    with open(path, 'r+b') as fout:
+                        fout.seek(pos)
+                        fout.write(bytes([data[pos] ^ (1 << candidate)]))
+
+                    return {'kind': kind, 'role': role, 'size': size,
+                            'offset': pos, 'bit': candidate,
+                            'context': data[max(0, pos - 16):pos + 17].hex()}
+
+        return None
 
     if kind == 'bitflip':
         with open(path, 'r+b') as fout:
